@@ -33,12 +33,12 @@ from pybtex.exceptions import PybtexError
 
 class AuxDataError(PybtexError):
     def __init__(self, message, context=None):
-        super(AuxDataError, self).__init__(message, context.filename)
+        super(AuxDataError, self).__init__(message, getattr(context, 'filename', None))
         self.context = context
         # the context object is updated in place while parsing goes on:
         # remember where the error was found
-        self.lineno = context.lineno
-        self.line = context.line
+        self.lineno = getattr(context, 'lineno', None)
+        self.line = getattr(context, 'line', None)
 
     def get_context(self):
         if self.line:
